@@ -14,7 +14,7 @@ from deepali.data import Image
 
 
 def rand_header(rng, D, max_n=24):
-    return {"size": [rng.randint(1, max_n) for _ in range(D)],
+    return {"size": [1 if rng.random() < 0.12 else rng.randint(1, max_n) for _ in range(D)],
             "origin": [rng.randint(-400, 400) / 8 for _ in range(D)],
             "spacing": [rng.choice([0.25, 0.5, 0.75, 1.0, 1.25, 2.0, 3.5]) for _ in range(D)],
             "direction": rand_dir(rng, D)}
@@ -111,6 +111,17 @@ def oracle(p):
                 if not bool(torch.all((step - want).abs() <= 3e-5 * scale)):
                     fail("C02:direction:columns", "unit step along an axis is not spacing * direction column", header=h, axis=k,
                          got=step.tolist(), want=want.tolist())
+            # the stored center is the physical point ITK assigns to index (n - 1) / 2, and a grid built
+            # from that point through the center= route is the same grid (also for singleton axes)
+            mid = [(n - 1) / 2 for n in h["size"]]
+            cen = torch.tensor(img.TransformContinuousIndexToPhysicalPoint(mid), dtype=torch.float64)
+            if not bool(torch.all((g.center().double() - cen).abs() <= 3e-5 * scale)):
+                fail("C02:center:vs_itk", "center() is not the physical point of index (n-1)/2", header=h, got=g.center().tolist(), itk=cen.tolist())
+            gci = Grid(size=h["size"], center=cen.tolist(), spacing=h["spacing"], direction=h["direction"])
+            oi = gci.index_to_world(torch.zeros(D, dtype=torch.float64), decimals=None).double()
+            if not bool(torch.all((oi - torch.tensor(h["origin"], dtype=torch.float64)).abs() <= 3e-5 * scale)):
+                fail("C02:center_route:vs_itk", "grid built with center= (ITK's mid point) does not place index 0 at the header origin",
+                     header=h, got=oi.tolist())
             gc = Grid(size=h["size"], center=g.center(), spacing=h["spacing"], direction=h["direction"])
             if gc != g:
                 fail("C02:center_route", "Grid(center=g.center()) differs from Grid(origin=...)", header=h)
